@@ -82,6 +82,11 @@ def run(spec, keep_tmp=False, sample=None):
         if s3f:
             seen = {}
 
+            def mkexc(tag):
+                if s3f.get('exc') == 'kbi':
+                    return KeyboardInterrupt()
+                return fakes3.FakeFault(tag)
+
             def fault(rec, when):
                 if 'key' in s3f:
                     # the nth request (0-based) for that destination key
@@ -91,10 +96,10 @@ def run(spec, keep_tmp=False, sample=None):
                         seen[rec['idx']] = len(seen)
                     n = seen.get(rec['idx'])
                     if n == s3f['nth'] and when == s3f['when']:
-                        return fakes3.FakeFault(f's3:{s3f["key"]}:{n}:{when}')
+                        return mkexc(f's3:{s3f["key"]}:{n}:{when}')
                     return None
                 if rec['idx'] == s3f['idx'] and when == s3f['when']:
-                    return fakes3.FakeFault(f's3:{rec["idx"]}:{when}')
+                    return mkexc(f's3:{rec["idx"]}:{when}')
                 return None
             client.fault = fault
         if getf:
@@ -178,7 +183,7 @@ def run(spec, keep_tmp=False, sample=None):
         me_t = env.sched.me()
         how = cancel['how'] if cancel else None
         at = cancel.get('at', 0) if cancel else 0
-        if how == 'result_kbi':
+        if how in ('result_kbi', 'exit_wait_kbi'):
             env.sched.interrupt_at = (at, 'user')
         try:
             if how in ('exit_exc', 'exit_kbi'):
@@ -187,6 +192,10 @@ def run(spec, keep_tmp=False, sample=None):
                     env.sched.block_until(lambda: env.sched.step >= at or env.sched.others_idle(me_t), 'user think time')
                     env.I.log('user_raises', how=how)
                     raise (UserBoom('boom') if how == 'exit_exc' else KeyboardInterrupt())
+            elif how == 'exit_wait_kbi':
+                with m:
+                    fs = [submit(i, ts) for i, ts in enumerate(transfers)]
+                    env.I.log('user_leaves_with_block')
             elif how == 'shutdown':
                 fs = [submit(i, ts) for i, ts in enumerate(transfers)]
                 env.sched.block_until(lambda: env.sched.step >= at or env.sched.others_idle(me_t), 'user think time')
@@ -245,7 +254,8 @@ def _run(spec, scenario, cfgkw, fs_fault, cancel_at, cancel_how, keep_tmp, sampl
                               fs_fault=fs_fault, cancel_at=cancel_at,
                               cancel_how=cancel_how or 'future', keep_tmp=keep_tmp,
                               sample_fs=sample_fs if sample else None,
-                              max_steps=spec.get('max_steps', 60000), collect=collect_dests)
+                              max_steps=spec.get('max_steps', 60000), collect=collect_dests,
+                              nonthreaded=bool(spec.get('nonthreaded')))
     r.spec = spec
     return r
 
